@@ -481,13 +481,23 @@ build_menu(const char *kind)
 }
 
 static long long CUR_IDX;
+/* One decoder serves many plans, as an application's decoder serves many utterances: a case is described together with the plan that ran
+ * before it on the same decoder ("<plan> <<after>> <previous plan>") and replayed after it, so that state carried from one utterance into
+ * the next is part of the replayable case. */
+static char PREV_DESC[1200];
 static int
 run_index(long long idx, void *arg)
 {
     static digest_t g;
-    char cd[1200];
+    char cd0[1200], cd[2500];
+    int rc;
     (void)arg;
-    plan_desc(&PLANS[idx], cd, sizeof cd);
+    plan_desc(&PLANS[idx], cd0, sizeof cd0);
+    if (PREV_DESC[0] && !FRESH)
+        snprintf(cd, sizeof cd, "%s <<after>> %s", cd0, PREV_DESC);
+    else
+        snprintf(cd, sizeof cd, "%s", cd0);
+    snprintf(PREV_DESC, sizeof PREV_DESC, "%s", cd0);
     CUR_IDX = idx;
     mc_case_begin(idx, cd);
     if (PLANS[idx].fullutt_len)
@@ -503,7 +513,8 @@ run_index(long long idx, void *arg)
         }
     } else if (compare(&g, cd) < 0)
         return -1;
-    return PLANS[idx].ncut > 0 || PLANS[idx].uniform > 0 || idx > 0;
+    rc = PLANS[idx].ncut > 0 || PLANS[idx].uniform > 0 || idx > 0;
+    return rc;
 }
 
 int
@@ -580,13 +591,34 @@ main(int argc, char **argv)
     if (cas) {
         plan_t p;
         static digest_t g;
-        if (plan_parse(cas, &p) < 0)
+        static char first[2500];
+        const char *after = strstr(cas, " <<after>> ");
+        snprintf(first, sizeof first, "%s", cas);
+        if (after) {
+            plan_t q;
+            first[after - cas] = 0;
+            if (plan_parse(after + 11, &q) < 0)
+                return 2;
+            /* the plan that ran before the case on the same decoder; its own verdict is not the question here */
+            mc_mute = 1;
+            if (q.fullutt_len)
+                run_fullutt(&q, "predecessor");
+            else
+                run_plan(&q, &g, "predecessor");
+            mc_mute = 0;
+        }
+        if (plan_parse(first, &p) < 0)
             return 2;
         mc_set_current(cas);
         if (p.fullutt_len)
             run_fullutt(&p, cas);
-        else if (run_plan(&p, &g, cas) == 0 && !P_C03)
-            compare(&g, cas);
+        else if (run_plan(&p, &g, cas) == 0) {
+            if (!P_C03)
+                compare(&g, cas);
+            else if (g.nfeat != REF.nfeat || g.n_frames != REF.n_frames)
+                mc_viol("C03/frames-do-not-add-up", cas, "%d frames searched in total (decoder_n_frames %d), the one-call run has %d (%d)", g.nfeat, g.n_frames, REF.nfeat,
+                        REF.n_frames);
+        }
         unlink(DICT_PATH);
         mc_finish();
         return 0;
